@@ -31,6 +31,8 @@ Definition E_Eof : N := 5.        (* Unexpected end of file, expected `}` *)
 Definition E_IncRead : N := 6.    (* Could not read included file *)
 Definition E_IncOpen : N := 7.    (* Could not open included file *)
 Definition E_Depth : N := 9.      (* nested too deeply (sections: fix F12; includes: fix F13) *)
+Definition E_Trailing : N := 10.  (* content after the end of the `server` section (fix: unmatched brace) *)
+Definition E_Unmatched : N := 11. (* unmatched closing brace in an included file *)
 Definition E_Fuel : N := 99.      (* model only: loop fuel exhausted (proved unreachable) *)
 (* validation error classes (config.rs messages) *)
 Definition V_Port : N := 20.
@@ -260,8 +262,9 @@ Definition include_with (files : bytes -> fentry) (room : bool)
          if utf8_valid b then
            let ils := lines (b ++ [LF; RBRACE]) in
            match ps (S (length ils)) included_section_name path ils 0 with
-           | ROk (NSec _ cs, _) => ROk cs
-           | ROk (_, _) => ROk []           (* unreachable: parse_section only returns sections *)
+           | ROk (_, (_ :: _, ln')) => RErr (mkerr E_Unmatched path ln')   (* closed before the appended brace *)
+           | ROk (NSec _ cs, ([], _)) => ROk cs
+           | ROk (_, ([], _)) => ROk []     (* unreachable: parse_section only returns sections *)
            | RErr e => RErr e
            | RCrash w => RCrash w
            end
@@ -349,12 +352,23 @@ Fixpoint find_server (ls : list bytes) (ln : N) : option pstate :=
   | l :: rest => if beq (clean_up l) kw_server_open then Some (rest, ln + 1) else find_server rest (ln + 1)
   end.
 
+(* only comments and blank lines may follow the server section: line number of the first other line *)
+Fixpoint check_trailing (ls : list bytes) (ln : N) : option N :=
+  match ls with
+  | [] => None
+  | l :: r => match clean_up l with [] => check_trailing r (ln + 1) | _ => Some (ln + 1) end
+  end.
+
 Definition parse_conf (files : bytes -> fentry) (file conf : bytes) : res node :=
   match find_server (lines conf) 0 with
   | None => RErr (mkerr E_NoServer file 0)
   | Some (rest, ln) =>
     match parse_section files conf_max_depth (S (length rest)) kw_server file rest ln with
-    | ROk (n, _) => ROk n
+    | ROk (n, (rest', ln')) =>
+      match check_trailing rest' ln' with
+      | None => ROk n
+      | Some k => RErr (mkerr E_Trailing file k)
+      end
     | RErr e => RErr e
     | RCrash w => RCrash w
     end
